@@ -174,7 +174,7 @@ def crash_leg(rep, d: Path, quick: bool, rnd) -> None:
         raise tlc.TlcFailure(f"only {len(cases)} histories with a crash were emitted")
     strata: dict = {}
     for c in cases:
-        key = tuple((h.get("at") or (h["c"]["doc"], h["c"]["ow"]) if h["ev"] != "touch" else h["p"]) for h in c["hist"])
+        key = tuple(h["p"] if h["ev"] == "touch" else (h.get("at") or ((h["c"]["doc"], h["c"]["ow"]) if "c" in h else (h["ev"], h.get("code")))) for h in c["hist"])
         strata.setdefault(str(key), c)
     chosen = list(strata.values())
     rnd.shuffle(chosen)
